@@ -8,18 +8,29 @@ real prysm functions (NumPy float `sqrt` / `ceil`, Python lists and `while` loop
   * every valid (n, m) with n <= 400 through the inverse maps (`nm_to_fringe`, `nm_to_ansi_j`; for Noll and XY,
     which have no inverse in prysm, the model's explicit inverse picks the index and the real forward map must
     return the pair).
+  * order independence: the maps must be functions of their argument, so shuffled / descending / ping-pong index
+    sequences must get the same answers (every call of the process is logged; a history-dependent answer is shrunk, in
+    fresh interpreters, to a short reproducing call SEQUENCE which the replay carries).
 Integers are compared exactly.  The property's own predicates (validity, injectivity, coverage of every valid
 order below the bound, round trips through the real inverses, Noll ordering rules, ANSI rule, XY closed form) are
 evaluated on the real outputs, independently of the model.
 """
+import json
+import math
+import os
 import signal
+import subprocess
+import sys
 import numpy as np
 from harness import common as C
 
 RULE = ('exhaustive: every index j from the first (ANSI 0, others 1) up to the tier bound for all four conventions; '
         'plus boundary indices k^2-1,k^2,k^2+1 (Fringe) / row ends t(t+3)/2+-1 and triangular numbers t(t+1)/2+-1 '
         '(ANSI, Noll, XY) for seeded random and extreme k,t with sqrt arguments < 2^52; plus every valid (n,m), n<=400, '
-        'through the inverse maps.  A case is non-trivial unless it is the first index; distinct = distinct (item, index).')
+        'through the inverse maps; plus order independence: before anything else, and again after each ascending sweep, '
+        'every map is asked non-ascending sequences (all ordered pairs of the first 24 indices, (next block, block end), '
+        '(two blocks on, block end), ping-pong around block ends, a descending run, a seeded random permutation of 1..10^4) '
+        'and must give the answer of the model / of a fresh process.  A case is non-trivial unless it is the first index; distinct = distinct (item, index).')
 ASSUMPTIONS = ['np.sqrt is correctly rounded and np.ceil/np.floor are exact on doubles (IEEE-754); the exact-integer '
                'reading of ceil(sqrt(.)) used by the translator is validated against NumPy on every index of the sweep '
                'and at the square / triangular boundaries below 2^52, not proved',
@@ -53,11 +64,79 @@ class _limit:
         return False
 
 
-def _impl():
+HIST = []    # every call this process made into the index maps, in order: [name, *args] or ['range', conv, a, b]
+
+
+def _raw():
     from prysm.polynomials import zernike as z
     from prysm.polynomials.xy import xy_j_to_mn
-    return {'ansi': z.ansi_j_to_nm, 'noll': z.noll_to_nm, 'fringe': z.fringe_to_nm, 'xy': xy_j_to_mn}, \
-           {'ansi': z.nm_to_ansi_j, 'fringe': z.nm_to_fringe}
+    return {'ansi': z.ansi_j_to_nm, 'noll': z.noll_to_nm, 'fringe': z.fringe_to_nm, 'xy': xy_j_to_mn,
+            'inv_ansi': z.nm_to_ansi_j, 'inv_fringe': z.nm_to_fringe}
+
+
+def _logged(name, f):
+    def g(*args):
+        HIST.append([name] + [int(a) for a in args])
+        return f(*args)
+    g.__name__ = f.__name__
+    g.raw = f
+    return g
+
+
+def _impl():
+    """the real functions, every call recorded in HIST (so that a history-dependent answer can be replayed)"""
+    r = _raw()
+    return {c: _logged(c, r[c]) for c in CONVS}, {c: _logged('inv_' + c, r['inv_' + c]) for c in ('ansi', 'fringe')}
+
+
+def _run_history(entries):
+    """execute a recorded call history on the real functions; returns the canonicalised result of the last call"""
+    r = _raw()
+    last = None
+    for e in entries:
+        if e[0] == 'range':
+            f = r[e[1]]
+            for j in range(e[2], e[3]):
+                last = _call(f, j, limit=10.0)
+                if last[0] != 'ok':
+                    break
+        else:
+            last = _call(r[e[0]], *e[1:], limit=10.0)
+    return last
+
+
+def _fresh_process(entries):
+    """result of the last call of `entries` in a NEW interpreter (no earlier calls): ('ok', tuple) | (status, text)"""
+    code = ('import sys, json; sys.path.insert(0, %r); from harness import common as C; C.import_prysm(); '
+            'from harness import c11; print("RESULT " + json.dumps(c11._run_history(json.load(sys.stdin))))' % C.VERIF)
+    try:
+        p = subprocess.run([sys.executable, '-c', code], input=json.dumps(entries), text=True, capture_output=True,
+                           timeout=120, env=dict(os.environ, PRYSM_REPO=C.REPO))
+    except subprocess.TimeoutExpired:
+        return ('timeout', 'history did not finish in a fresh process')
+    for line in p.stdout.splitlines():
+        if line.startswith('RESULT '):
+            st, val = json.loads(line[7:])
+            return (st, tuple(val) if isinstance(val, list) else val)
+    raise C.ToolError(f'fresh-process run failed: {p.stderr[-800:]}')
+
+
+def _shrink_history(expected):
+    """shortest suffix of HIST (tried at doubling lengths) whose last call, in a fresh process, still differs from
+    `expected`; the whole history if no proper suffix does"""
+    n = len(HIST)
+    k = 2
+    while k < n:
+        cand = HIST[n - k:]
+        if _fresh_process(cand) != ('ok', tuple(expected)):
+            # trim from the front while it still reproduces (cheap: at most a few steps)
+            while len(cand) > 2 and _fresh_process(cand[1:]) != ('ok', tuple(expected)):
+                cand = cand[1:]
+            return cand
+        k = k * 2 if k >= 4 else k + 1
+        if k > 4096:
+            break
+    return list(HIST)
 
 
 _DEAD = set()     # conventions whose implementation stopped returning: never wait for them twice
@@ -99,6 +178,81 @@ def valid(n, m):
 
 def tri(d):
     return d * (d + 1) // 2
+
+
+def closed_form(conv, j):
+    """the convention's rule in exact integer arithmetic (same closed forms as Model/C11.lean; used by replay/search)"""
+    if conv == 'fringe':
+        s = math.isqrt(j)
+        k = (s if s * s == j else s + 1) - 1
+        r = j - k * k - 1
+        n = k + r // 2
+        return n, (2 * k - n) * (1 - 2 * (r % 2))
+    t = j if conv == 'ansi' else j - 1
+    d = (math.isqrt(8 * t + 1) - 1) // 2
+    p = t - tri(d)
+    if conv == 'ansi':
+        return d, 2 * p - d
+    if conv == 'xy':
+        return d - p, p
+    a = 2 * ((p + 1) // 2) if d % 2 == 0 else 2 * (p // 2) + 1
+    return d, (-a if j % 2 else a)
+
+
+def _block_end(conv, t):
+    """last index of block t (row of radial order / total degree t; Fringe group n+|m| = 2(t-1))"""
+    if conv == 'fringe':
+        return t * t
+    return tri(t + 1) + FIRST[conv] - 1
+
+
+def _order_sequence(ctx, conv, J, wide=False):
+    """index sequences that are NOT ascending: every ordered pair of the first 24 (60 when an item is untranslatable) indices; around each block end e:
+    (next block, e), (two blocks on, e), ping-pong e, e+1, e-1, e+2, …; a descending run; a random permutation;
+    a few block ends near the top of the sweep"""
+    lo = FIRST[conv]
+    seq = []
+    w = 60 if wide else 24
+    for a in range(lo, lo + w):
+        for b in range(lo, lo + w):
+            seq += [a, b]
+    for t in range(1, ctx.scale(60, 120)):
+        e, e1, e2 = _block_end(conv, t), _block_end(conv, t + 1), _block_end(conv, t + 2)
+        seq += [e + 1, e, e1, e, e1 + 1, e, e2, e]
+        seq += [x for k in range(1, 4) for x in (e + k, e - k) if e - k >= lo] + [e]
+    seq += list(range(ctx.scale(3000, 12000), lo - 1, -1))
+    seq += [int(x) + lo for x in ctx.rng.permutation(ctx.scale(10 ** 4, 4 * 10 ** 4))]
+    t = 1
+    while _block_end(conv, t + 3) < J:
+        t += 1
+    for tt in (t // 2, t - 1, t):
+        e, e1 = _block_end(conv, tt), _block_end(conv, tt + 1)
+        seq += [e1, e, e + 1, e, e1 + 1, e - 1, e]
+    return [j for j in seq if lo <= j <= J]
+
+
+def _order_check(ctx, conv, f, seq, model, item):
+    """run `seq` through the logged function `f`; the answer to every call must be the model's answer for that index,
+    whatever was asked before.  On the first difference the call history is shrunk to a short reproducing sequence."""
+    for j, mm in zip(seq, model):
+        st, val = _call(f, j, limit=10.0)
+        if st == 'ok' and val == tuple(mm):
+            continue
+        fresh = _fresh_process([[conv, j]])
+        hist = _shrink_history(mm) if fresh == ('ok', tuple(mm)) else [[conv, j]]
+        case = {'j': j, 'sequence': hist, 'expected': list(mm)}
+        got = val if st == 'ok' else f'{st}: {val}'
+        ctx.disagree(item, {'j': j, 'calls_before': len(HIST) - 1}, got, list(mm))
+        if fresh == ('ok', tuple(mm)):
+            detail = (f'{conv}({j}) = {got} after the calls {hist[:-1][-6:]}, but {tuple(mm)} when asked first: '
+                      f'the answer depends on the call history')
+        elif st == 'ok':
+            return False     # wrong whatever the history: the ascending sweep reports it with the property's own predicates
+        else:
+            detail = f'{conv}({j}) {got}; the order at this index is {tuple(mm)}'
+        ctx.pred_fail(item, case, detail)
+        return False
+    return True
 
 
 # ------------------------------------------------------------------------------------------------
@@ -217,6 +371,10 @@ def correspondence(ctx):
 
     # ------------------------------------------------------------ requests to the model
     lines = []
+    oseq = {conv: _order_sequence(ctx, conv, J, wide=ctx.widen) for conv in CONVS}
+    for conv in CONVS:
+        for a in range(0, len(oseq[conv]), 2000):
+            lines.append(f'fwds {conv} ' + ' '.join(map(str, oseq[conv][a:a + 2000])))
     for conv in CONVS:
         for a, b in _chunks(FIRST[conv], J + 1, CH):
             lines.append(f'sweep {conv} {a} {b}')
@@ -231,21 +389,38 @@ def correspondence(ctx):
     lines.append('invs xy ' + ' '.join(f'{a} {b}' for a, b in xpairs))
     rep = iter(C.lean_driver('C11', lines))
 
+    # ------------------------------------------------------------ order independence (the first calls of this process)
+    # the maps must be functions of their argument: shuffled / descending / ping-pong sequences get the model's answers
+    for conv in CONVS:
+        toks = []
+        for a in range(0, len(oseq[conv]), 2000):
+            toks += next(rep).split()
+        model = [(int(toks[2 * i]), int(toks[2 * i + 1])) for i in range(len(oseq[conv]))]
+        _order_check(ctx, conv, fwd[conv], oseq[conv], model, f'{conv}_order')
+        ctx.evaluations += len(model)
+        ctx.items[f'{conv}_order'] = len(model)
+        ctx.hist[f'{conv}_order:non-ascending'] += len(model)
+        ctx._distinct.update(f'{conv}_order:{i}' for i in range(len(model)))
+
     # ------------------------------------------------------------ exhaustive sweeps
     for conv in CONVS:
         f = fwd[conv]
         lo = FIRST[conv]
         real = np.zeros((J + 1 - lo, 2), dtype=np.int64)
+        model_all = np.zeros((J + 1 - lo, 2), dtype=np.int64)
         failed_calls = 0
-        broken = False
+        broken = f.__name__ in _DEAD       # already stopped returning in the order-independence item
         for a, b in _chunks(lo, J + 1, CH):
             model = np.array(next(rep).split(), dtype=np.int64).reshape(-1, 2)
+            model_all[a - lo:b - lo] = model
             if broken:           # the implementation already failed to return on this convention: do not wait again
                 real[a - lo:b - lo] = model
                 continue
             try:
+                HIST.append(['range', conv, a, b])
+                fr = f.raw
                 with _limit(ctx.scale(30, 120)):
-                    got = [f(j) for j in range(a, b)]
+                    got = [fr(j) for j in range(a, b)]
                 raw = np.array(got)
                 if raw.dtype.kind not in 'iu' and not (raw.dtype.kind == 'f' and (raw == np.floor(raw)).all()):
                     raise TypeError('non-integer results')      # located index by index below
@@ -282,9 +457,20 @@ def correspondence(ctx):
         ctx._distinct.update(f'{conv}:{j}' for j in range(lo + 1, J + 1))
         for (j, detail) in _array_predicates(ctx, conv, lo, real)[:6]:
             ctx.pred_fail(conv, {'j': j}, detail)
+        # after the long ascending run: step back across the block ends just below the top, and to the very first index
+        if not broken:
+            t = 1
+            while _block_end(conv, t + 2) < J:
+                t += 1
+            e0, e1 = _block_end(conv, t), _block_end(conv, t + 1)
+            seq2 = [e1, J, e0, e1, e1 + 1, e1, lo, J - 1, e0 + 1, e0, lo + 5, lo + 4]
+            seq2 = [j for j in seq2 if lo <= j <= J]
+            _order_check(ctx, conv, f, seq2, [tuple(int(x) for x in model_all[j - lo]) for j in seq2], f'{conv}_order')
+            ctx.evaluations += len(seq2)
+            ctx.items[f'{conv}_order'] += len(seq2)
         # round trip through the real inverse, every index
         if conv in inv:
-            g = inv[conv]
+            g = inv[conv].raw      # 10^5..10^6 calls: not logged one by one
             nbad = 0
             for k in range(0, J + 1 - lo):
                 j = lo + k
@@ -431,6 +617,15 @@ def search(ctx, hints):
             best = (conv, {'j': r[0]}, r[1])
     if best:
         return {'item': best[0], 'input': best[1], 'detail': best[2]}
+    # order independence (small scope, exact rule as the oracle): a history-dependent answer is a failing input
+    for conv in CONVS:
+        seq = _order_sequence(ctx, conv, 20000, wide=True)
+        n0 = len(ctx.pred_failures)
+        if not _order_check(ctx, conv, fwd[conv], seq, [closed_form(conv, j) for j in seq], f'{conv}_order'):
+            pf = ctx.pred_failures[n0]
+            del ctx.pred_failures[n0:]
+            ctx.disagreements.pop()
+            return {'item': pf['item'], 'input': pf['case'], 'detail': pf['detail']}
     # valid pairs through the real inverses
     for conv in ('ansi', 'fringe'):
         for n in range(0, 60):
@@ -454,7 +649,26 @@ def replay(inp):
     _DEAD.clear()
     item, c = inp['item'], inp['input']
     conv = item.split('_')[0]
-    print('replaying', item, c)
+    print('replaying', item, {k: v for k, v in c.items() if k != 'sequence'})
+    if 'sequence' in c:
+        # a call SEQUENCE: executed in order on the real functions of this (fresh) process; the last call is the witness
+        seq = c['sequence']
+        show = seq if len(seq) <= 12 else seq[:3] + [['…', len(seq) - 9, 'more calls']] + seq[-6:]
+        print('call sequence:', show)
+        r = _raw()
+        last = None
+        for k, e in enumerate(seq):
+            if e[0] == 'range':
+                last = _run_history([e])
+                print(f'  {e[1]}(j) for j in [{e[2]}, {e[3]}) -> last {last}')
+            else:
+                last = _call(r[e[0]], *e[1:], limit=10.0)
+                if k >= len(seq) - 8:
+                    print(f'  {e[0]}{tuple(e[1:])} -> {last[1]}')
+        j = c['j']
+        rule = closed_form(conv, j)
+        print(f'last call {conv}({j}) -> {last}; the convention has {rule} at this index (recorded expectation {tuple(c["expected"])})')
+        return last != ('ok', tuple(rule))
     if 'j' in c:
         j = c['j']
         if conv == 'xy' and j < 1:
@@ -515,7 +729,12 @@ MANIFEST_ENTRY = {
              'that NumPy computes those integers is validated, not proved: integer-exact comparison of the closed-form model '
              'with the real functions for every index up to 10^5 (quick) / 10^6 (thorough) in all four conventions, at '
              'k^2-1,k^2,k^2+1 / triangular numbers +-1 with square-root arguments up to just below 2^52, and for every valid '
-             '(n,m) with n<=400 through the inverse maps; the property predicates are also evaluated directly on the real outputs.'),
+             '(n,m) with n<=400 through the inverse maps; the property predicates are also evaluated directly on the real outputs. '
+             'That the maps are pure functions of their argument is (a) a translator precondition: a body that reads or writes '
+             'module-level names, uses global/nonlocal, mutable defaults, function attributes or a non-cache decorator is '
+             'reported untranslatable (fact indexMapsReadAndWriteNoModuleState in the evidence) and (b) tested: non-ascending '
+             'call sequences (ordered pairs, block-end ping-pong, descending, random permutation; before and after the '
+             'ascending sweeps) must reproduce the answers of the model.'),
     'note': ('Trusted: Lean kernel (+propext, Classical.choice, Quot.sound); the ast->Lean compiler in tools/gen_c11.py for the '
              'Python subset used (ints, exact rationals, lists, for/while/if) - validated each run by model-vs-code execution; '
              'IEEE sqrt/ceil exactness below 2^52 (validated by the sweep, not proved; the first Fringe failure is exactly '
